@@ -71,6 +71,7 @@ type frame struct {
 	panic            interface{}
 	phitemps         []value // temporaries for parallel phi assignment
 	curInstr         ssa.Instruction
+	unwind           map[ssa.Instruction]int // symbolic decisions per branch instruction in this activation
 }
 
 func (fr *frame) get(key ssa.Value) value {
